@@ -765,6 +765,30 @@ func main() {
 		if pf := os.Getenv("JID_PROGS"); pf != "" {
 			cases = append(cases, readVecs(pf)...)
 		}
+		// longer programs over the value store than TLC enumerates, drawn at random (VERIF_SEED)
+		if n := envInt("JID_PROGS_RANDOM", 0); n > 0 {
+			rng := rand.New(rand.NewSource(seed*7919 + 13))
+			bases := [][3][]int{{{1}, {14}, {19}}, {{1}, {14}, {}}, {{}, {14}, {19, 19}}, {{2, 11}, {1, 5, 14}, {12, 1, 1, 1}}}
+			syms := []int{1, 2, 14, 19, 12, 11}
+			kinds := []string{"bare", "domain", "copy", "withl", "withd", "withr", "withr", "withl"}
+			for i := 0; i < n; i++ {
+				bs := bases[rng.Intn(len(bases))]
+				v := Vec{K: "prog", BL: bs[0], BD: bs[1], BR: bs[2]}
+				for k := 1; k <= 6; k++ {
+					o := Op{Op: kinds[rng.Intn(len(kinds))], H: 1 + rng.Intn(k), P: []int{}}
+					if strings.HasPrefix(o.Op, "with") {
+						for j := rng.Intn(4); j > 0; j-- {
+							o.P = append(o.P, syms[rng.Intn(len(syms))])
+						}
+						if o.Op == "withd" && len(o.P) == 0 {
+							o.P = []int{14}
+						}
+					}
+					v.Ops = append(v.Ops, o)
+				}
+				cases = append(cases, v)
+			}
+		}
 		cases = append(cases, corpus(seed, envInt("JID_CORPUS", 30000))...)
 		tracePath = os.Args[7]
 	}
